@@ -97,6 +97,8 @@ def grad_unit(kind, sel, tp, n, weighted=False, spread_form="scalar", entry="sen
             g = out[0] if full_output else out
             ref = fd_gradient(L, x0_used, free_names, free_x0)
         c.reachable("gradient evaluated")
+        from .c06 import check_purity
+        check_purity(c, L)
         g = np.asarray(g, dtype=object).ravel()
         c.prove(len(g) == len(ref), "one gradient entry per free variable")
         if len(g) == len(ref):
